@@ -59,8 +59,11 @@ def gen_history(rng: random.Random, nworkers: int, configs, hist_id: str):
         elif k < 0.42:
             ops.append({"op": "api_roundtrip", "w": w, "src": rng.choice(hs),
                         "hid": new_h(w)})
-        elif k < 0.45:
+        elif k < 0.44:
             ops.append({"op": "relayout", "w": w, "src": rng.choice(hs),
+                        "hid": new_h(w), "seed": rng.randrange(10 ** 6)})
+        elif k < 0.47:
+            ops.append({"op": "api_derive", "w": w, "src": rng.choice(hs),
                         "hid": new_h(w), "seed": rng.randrange(10 ** 6)})
         elif k < 0.49:
             ops.append({"op": "sub", "w": w, "src": rng.choice(hs),
@@ -179,7 +182,7 @@ def run_history(fl: Fleet, hist, with_keys=True, stats=None, key_table=None):
                     recipe=hist["recipes"][op["recipe"]])
                 live[w].add(op["hid"])
             elif kind in ("mutate", "reorder", "api_roundtrip", "sub", "deepcopy",
-                          "relayout"):
+                          "relayout", "api_derive"):
                 if op["src"] not in live[w]:
                     continue
                 kwargs = {"hid_new": op["hid"], "hid": op["src"]}
@@ -187,7 +190,7 @@ def run_history(fl: Fleet, hist, with_keys=True, stats=None, key_table=None):
                     kwargs["mseed"] = op["mseed"]
                 if kind == "sub":
                     kwargs["index"] = op["index"]
-                if kind == "relayout":
+                if kind in ("relayout", "api_derive"):
                     kwargs["seed"] = op["seed"]
                 r = wk.call(kind, **kwargs)
                 if kind == "mutate":
@@ -196,6 +199,10 @@ def run_history(fl: Fleet, hist, with_keys=True, stats=None, key_table=None):
                         continue
                     bump("mutations")
                     bump("mut:" + r["sig"])
+                if kind == "api_derive":
+                    if not r.get("derived"):
+                        continue
+                    bump("api_derived_after_possible_caching")
                 if kind == "deepcopy" and r.get("leaks"):
                     viol.append({"class": "cached-hash-survived-deepcopy",
                                  "op_index": idx, "detail": str(r["leaks"][:5])})
